@@ -768,11 +768,15 @@ class SimWorld:
         clients = {o.client for o in self.shadow_orders}
         for o in self.shadow_orders:
             strat = o.trade.strategy
+            owner = self.lab.clients[strat.sspec.get("client", 0)]  # the client the strategy trades through
+            if o.client is not owner:
+                self.fail("order-client", ("replacement" if id(o) in self.replacements else "placed",),
+                          "order belongs to client %s but its strategy trades through %s" % (o.client.username if o.client else None, owner.username))
             views = {
                 "strategy_orders": blotter.strategy_orders(strat),
                 "strategy_selection_orders": blotter.strategy_selection_orders(strat, o.selection_id, o.handicap),
-                "client_orders": blotter.client_orders(o.client),
-                "client_strategy_orders": blotter.client_strategy_orders(o.client, strat),
+                "client_orders": blotter.client_orders(owner),
+                "client_strategy_orders": blotter.client_strategy_orders(owner, strat),
                 "trade": blotter._trades.get(o.trade, []),
             }
             for name, v in views.items():
